@@ -160,6 +160,8 @@ def run_sequential(case, seed=0):
     exc = None
     applied = []      # (eid, edit) in registration order
     unmappable = False
+    seq_viol = []
+    seq_events = [0]
     rewrite._current = rec
     try:
         for _, _, eid, e in sorted(steps, key=lambda x: x[:3]):
@@ -173,10 +175,27 @@ def run_sequential(case, seed=0):
             if loc is None:
                 unmappable = True
                 break
+            # the cache monitor watches these contexts too: they start from
+            # modules that earlier rewrites left behind (zero-sized blocks,
+            # re-laid-out intervals), which a fresh module never shows
+            from gtirb_rewriting import rewriting as rw
+            mon = hooks.CacheMonitor() if rw._verif is not None else None
+            if mon is not None:
+                mon.ordering_events = {"apply_begin"}
             try:
                 ctx = RewritingContext(m, functions)
                 _register_one(case, eid, e, bu, ctx, rec, functions, loc)
-                ctx.apply()
+                if mon is not None:
+                    mon.install_shadow(m)
+                    rw._verif.register(mon)
+                try:
+                    ctx.apply()
+                finally:
+                    if mon is not None:
+                        rw._verif.unregister(mon)
+                        mon.uninstall()
+                        seq_viol.extend(mon.viol)
+                        seq_events[0] += mon.ctr.get("hook_events", 0)
                 relayout(case, bu)
             except Exception as x:  # noqa
                 exc = x
@@ -186,6 +205,8 @@ def run_sequential(case, seed=0):
         rewrite._current = None
     bu.rec = rec
     bu.unmappable = unmappable
+    bu.seq_viol = seq_viol
+    bu.seq_events = seq_events[0]
     return bu, exc
 
 
@@ -408,6 +429,9 @@ def run_case(case):
     multi = not one_mod_per_block(case)
     if case["edits"]:
         bu2, exc2 = run_sequential(case)
+        ctr["hook_events_one_at_a_time"] = bu2.seq_events
+        for k, msg in {(k, m_) for k, m_ in bu2.seq_viol}:
+            viol.append({"key": k + ":one-at-a-time", "msg": msg})
         if bu2.unmappable:
             ctr["differential_unmappable"] = 1
         else:
